@@ -277,6 +277,31 @@ func scenarios() []vrt.Scenario {
 				w.send(1)
 			})
 		}),
+		mk("S12-two-unsubscribers-of-one-subscription-then-send", func(w *world) {
+			// the same subscription is unsubscribed from two threads at once (Unsubscribe may be called
+			// repeatedly and from anywhere); whichever call returns first, a Send that begins after that
+			// return must not reach the buffered subscriber. One value is sent first so that the
+			// subscription has left the feed's inbox.
+			a, b := w.newSub("A", 2), w.newSub("B", 2)
+			w.subscribe(a)
+			w.subscribe(b)
+			w.send(1)
+			w.s.Spawn("unsubA1", false, func() { w.unsubscribe(a, a.sub) })
+			w.s.Spawn("unsubA2-then-send", false, func() {
+				w.unsubscribe(a, a.sub)
+				w.send(2)
+			})
+		}),
+		mk("S13-two-unsubscribers-of-one-fresh-subscription-then-send", func(w *world) {
+			// as S12 with the subscription still in the inbox
+			a := w.newSub("A", 1)
+			w.subscribe(a)
+			w.s.Spawn("unsubA1", false, func() { w.unsubscribe(a, a.sub) })
+			w.s.Spawn("unsubA2-then-send", false, func() {
+				w.unsubscribe(a, a.sub)
+				w.send(1)
+			})
+		}),
 		mk("S6-self-unsubscribe-after-first-value", func(w *world) {
 			a, b := w.newSub("A", 0), w.newSub("B", 2)
 			w.subscribe(a)
